@@ -265,6 +265,7 @@ type callCtx struct {
 	Changed   int
 	Creates   int
 	DryKeys   map[verifsim.Key]bool // package objects for which a dry-run write was issued so far
+	RealKeys  map[verifsim.Key]bool // package objects for which a real write was issued so far
 
 	// reconciler histories only
 	EstOK           bool // the Establish call of this reconcile returned nil
@@ -452,6 +453,10 @@ func (w *world) monitor(v *verifsim.View, wr *verifsim.Write) {
 		return
 	}
 	c.RealWrite++
+	if c.RealKeys == nil {
+		c.RealKeys = map[verifsim.Key]bool{}
+	}
+	c.RealKeys[wr.Key] = true
 	if wr.Changed {
 		c.Changed++
 	}
